@@ -1,6 +1,7 @@
 package main
 
 import (
+	"fmt"
 	"os"
 	"path/filepath"
 	"strconv"
@@ -145,6 +146,9 @@ func init() {
 			h := c.mcHolds("GenHead", "GenHead.cfg", tlcOpts{})
 			cases, results = c.replay("engine", h.cases, replayOpts{})
 			c.judge("engine", cases, results, func(cs, res map[string]J) string { in, _ := res["input"].(string); return in })
+			// once more with the lists of one-letter atoms of the PROGRAM written as double-quoted strings
+			cases, results = c.replay("engine", h.cases, replayOpts{opts: map[string]string{"strings": "1"}})
+			c.judge("engine", cases, results, func(cs, res map[string]J) string { in, _ := res["input"].(string); return in + " (strings)" })
 			n := 1200
 			if c.tier == "thorough" {
 				n = 20000
@@ -223,6 +227,16 @@ func init() {
 				r := c.mcHolds("GenClause", cfg, tlcOpts{})
 				cases, results := c.replay("engine", r.cases, replayOpts{})
 				c.judge("engine", cases, results, func(cs, res map[string]J) string { in, _ := res["input"].(string); return in })
+			}
+			// every argument kind of a stored clause against every way the call can write its argument (GenHead.tla), the lists of
+			// one-letter atoms of the clauses written as lists and as double-quoted strings
+			h := c.mcHolds("GenHead", "GenHead.cfg", tlcOpts{})
+			for _, o := range []map[string]string{nil, {"strings": "1"}} {
+				cases, results := c.replay("engine", h.cases, replayOpts{opts: o})
+				c.judge("engine", cases, results, func(cs, res map[string]J) string {
+					in, _ := res["input"].(string)
+					return in + fmt.Sprint(o)
+				})
 			}
 			n := 150
 			if c.tier == "thorough" {
